@@ -146,11 +146,11 @@ def check_case(ctx, c):
         # ---- block / chunk sizes on the fitted object
         variations = []
         if name == "Wasserstein":
-            variations = [("memory_size", v) for v in ("64", "1k", "8k", "1M") if v != p.get("memory_size")]
+            variations = [("memory_size", v) for v in ("64", "200", "1k", "8k", "1M") if v != p.get("memory_size")]
             if p["method"] == "LOT_sinkhorn":
                 variations += [("sinkhorn_chunk_size", v) for v in (1, 2, 7)]
         elif name == "Sinkhorn":
-            variations = [("memory_size", "1k"), ("memory_size", "1M"), ("chunk_size", 1), ("chunk_size", 2), ("chunk_size", 7)]
+            variations = [("memory_size", "64"), ("memory_size", "200"), ("memory_size", "1k"), ("memory_size", "1M"), ("chunk_size", 1), ("chunk_size", 2), ("chunk_size", 7)]
         for attr, val in variations:
             old = getattr(est, attr)
             setattr(est, attr, val)
